@@ -14,7 +14,7 @@ ID = "C06"
 META = {
     "engine": "A (exhaustive programs x noise assignments x back ends x switches)",
     "rule": "a case = (program, noise assignment, path, back end, switches); non-trivial = some operation carries a noise model of non-zero strength; distinct = distinct cases",
-    "bounds": {"quick": "all programs of <= 2 letters over 8 letters on (1 emitter, 1 photon); noise menu of 11 one-qubit choices (depolarizing 0/.25/1, Pauli X/Y/Z, loss 0/.25/1, before/after) "
+    "bounds": {"quick": "all programs of <= 2 letters over 11 letters on (1 emitter, 1 photon); noise menu of 11 one-qubit choices (depolarizing 0/.25/1, Pauli X/Y/Z, loss 0/.25/1, before/after) "
                         "+ 4 mixed control/target choices + 3 per-gate wrapper lists; constructor path on both back ends; assign_noise path with 6-entry maps",
                "thorough": "programs of <= 3 letters with a 6-choice menu; layout (2,1)"},
     "assumptions": ["domain D1: circuits without measurements (for measurements inside noisy circuits the two back ends define different post-selection conventions; not demanded here)",
@@ -22,7 +22,7 @@ META = {
 }
 LAYOUT = (1, 1, 0)
 LETTERS = [["1", "H", "e", 0], ["1", "P", "e", 0], ["1", "X", "p", 0], ["1", "H", "p", 0], ["CNOT", "e", 0, "p", 0], ["CZ", "e", 0, "p", 0],
-           ["W", ["H", "P"], "e", 0], ["W", ["X", "I"], "p", 0]]
+           ["W", ["H", "P"], "e", 0], ["W", ["X", "I"], "p", 0], ["1", "Pdag", "e", 0], ["1", "Y", "p", 0], ["1", "Z", "e", 0]]
 # noise descriptor: None | ["dep", p, after] | ["pauli", "X", after] | ["loss", l, after]
 MENU1 = [None, ["dep", 0.25, True], ["dep", 0.25, False], ["dep", 1.0, True], ["dep", 0.0, True], ["pauli", "X", True], ["pauli", "Z", False],
          ["pauli", "Y", True], ["loss", 0.25, True], ["loss", 1.0, False], ["loss", 0.0, True]]
@@ -30,11 +30,25 @@ MIXED2 = [[["dep", 0.25, True], ["dep", 0.5, False]], [["dep", 0.25, False], ["p
 WLISTS = [[["dep", 0.25, True], None], [None, ["pauli", "X", True]], [["pauli", "Z", False], ["dep", 0.5, True]]]
 
 
-def make_noise(d):
+_NOISE_POOL = {}
+
+
+def make_noise(d, slot=None):
+    """noise object for descriptor d.  With a slot, the object is taken from a pool and *re-parameterised in place* (strength and
+    placement written into noise_parameters), as a parameter sweep over one circuit would do: a model that caches anything
+    derived from its parameters then shows up as a stale value in a later case."""
     import graphiq.noise.noise_models as nm
     if d is None:
         return nm.NoNoise()
     kind, val, after = d
+    if slot is not None and kind in ("dep", "loss"):
+        key = (kind, slot)
+        n = _NOISE_POOL.get(key)
+        if n is None:
+            n = _NOISE_POOL[key] = nm.DepolarizingNoise(val) if kind == "dep" else nm.PhotonLoss(val)
+        n.noise_parameters["Depolarizing probability" if kind == "dep" else "loss rate"] = val
+        n.noise_parameters["After gate"] = after
+        return n
     if kind == "dep":
         n = nm.DepolarizingNoise(val)
     elif kind == "pauli":
@@ -45,20 +59,24 @@ def make_noise(d):
     return n
 
 
-def make_noisy_op(letter, nd):
-    """nd: descriptor (one-qubit / wrapper scalar), or [d_control, d_target], or ("list", [d...]) for wrappers."""
+def make_noisy_op(letter, nd, slot=None):
+    """nd: descriptor (one-qubit / wrapper scalar), or [d_control, d_target], or ("list", [d...]) for wrappers.
+    slot: position of the operation in its program (noise objects are then pooled per (kind, slot, sub-position))."""
     import graphiq.circuit.ops as ops
     op = gq.make_op(letter)
     k = letter[0]
+
+    def sl(j):
+        return None if slot is None else (slot, j)
     if k in ("CNOT", "CZ"):
         pair = nd if (isinstance(nd, list) and len(nd) == 2 and (nd[0] is None or isinstance(nd[0], list))) else [nd, nd]
-        op.noise = [make_noise(pair[0]), make_noise(pair[1])]
+        op.noise = [make_noise(pair[0], sl(0)), make_noise(pair[1], sl(1))]
     elif k == "W" and isinstance(nd, tuple):
-        op.noise = [make_noise(x) for x in nd[1]]
+        op.noise = [make_noise(x, sl(j)) for j, x in enumerate(nd[1])]
     elif k == "W":
-        op.noise = make_noise(nd) if nd is not None else [make_noise(None) for _ in letter[1]]
+        op.noise = make_noise(nd, sl(0)) if nd is not None else [make_noise(None) for _ in letter[1]]
     else:
-        op.noise = make_noise(nd)
+        op.noise = make_noise(nd, sl(0))
     return op
 
 
@@ -280,7 +298,7 @@ def check_case(acc, layout, program, noises, tier):
                 acc.evaluations += 1
                 acc.transitions += len(program)
                 try:
-                    ops_list = [make_noisy_op(l, nd) for l, nd in zip(program, noises)]
+                    ops_list = [make_noisy_op(l, nd, slot=j) for j, (l, nd) in enumerate(zip(program, noises))]
                     circ_obj = build_real(layout, ops_list)
                     st = compile_real(circ_obj, backend, noise_on, reduce_flag)
                     if noise_on and reduce_flag and not trivial:
